@@ -129,7 +129,6 @@ var recReviewed = map[string]string{
 	"toValue":                               "recurses once through reflect.ValueOf for unknown static types, then on pointer indirections: bounded by the depth of the Go type",
 	"fieldIndexByName":                      "descends into embedded structs: bounded by the nesting depth of the Go struct type",
 	"(*compiler).parseExpression":           "structural recursion over the AST: bounded by the depth of the parsed tree",
-	"(*cloner).object":                      "object-graph traversal with memo tables: every object / environment is cloned once",
 	"arraySortQuickSort":                    "quicksort partition recursion: each call works on a strictly smaller index range",
 	"builtinJSONParseWalk":                  "structural recursion over the value decoded by encoding/json: a finite tree",
 	"builtinJSONReviveWalk":                 "walks the tree JSON.parse has just built: finite and acyclic",
@@ -542,6 +541,7 @@ func ruleRecDataDepth(c *Ctx, r *R) {
 		inPkg[f] = true
 	}
 	adj := map[*ssa.Function][]*ssa.Function{}
+	cloneSlotImpls := slotImplsOf(c)["clone"]
 	var addEdges func(from, fn *ssa.Function)
 	addEdges = func(from, fn *ssa.Function) {
 		for _, b := range fn.Blocks {
@@ -550,6 +550,17 @@ func ruleRecDataDepth(c *Ctx, r *R) {
 				case ssa.CallInstruction:
 					t := targetOf(x)
 					if t == nil {
+						// a call through the `clone` slot of the class table is not a script-level dispatch: nothing counts
+						// it, so its implementations are ordinary callees
+						if ld, ok := x.Common().Value.(*ssa.UnOp); ok && ld.Op == token.MUL {
+							if nt, f := fieldOfAddr(ld.X); nt != nil && nt.Obj().Name() == "objectClass" && f.Name() == "clone" {
+								for _, impl := range cloneSlotImpls {
+									if inPkg[impl] {
+										adj[from] = append(adj[from], impl)
+									}
+								}
+							}
+						}
 						continue
 					}
 					if t.Parent() != nil {
